@@ -402,6 +402,20 @@ def rule_call_sites(ck):
                         elif isinstance(n, ast.Call) and isinstance(n.func, ast.Attribute) and q.dotted(n.func.value) == d and n.func.attr in ("update", "setdefault", "pop", "clear"):
                             later.append(n)
             ck.ob("C48.call-sites", fi, later[0] if later else c, not later, "the parameter dict is not changed after it was signed (except for adding oauth_signature)", construct=None if later else "unchanged-after-signing " + d)
+        # what is signed is what the function was given: its own url/method/parameters reach the signature call
+        fparams = [p for p in fi.params() if p != "self"]
+        for c in (ca, cb):
+            if "method" in fparams:
+                ck.ob("C48.call-sites", fi, c, q.dotted(q.arg(c, 1, "method")) == "method", "the request's own HTTP method is signed (not a fixed verb)", construct="method-passed " + q.unparse(c.func))
+            if "url" in fparams:
+                ck.ob("C48.call-sites", fi, c, q.dotted(q.arg(c, 2, "url")) == "url", "the request's own URL is signed", construct="url-passed " + q.unparse(c.func))
+        if "parameters" in fparams:
+            d = q.dotted(ca.args[3]) if len(ca.args) > 3 else None
+            is_merge = lambda n: n.kind == "stmt" and any(isinstance(x, ast.Call) and isinstance(x.func, ast.Attribute) and x.func.attr == "update" and q.dotted(x.func.value) == d
+                                                          and x.args and q.dotted(x.args[0]) == "parameters" for x in q.walk_local(n.ast))
+            ef = event_facts(fi, {"merged": is_merge}, cond_facts=False)
+            for node, c in (sites[SIGS[0]][0], sites[SIGS[1]][0]):
+                ck.ob("C48.call-sites", fi, c, d == "parameters" or ("@merged", True) in ef[node.id], "the request's own parameters are part of the signed dict on every path", construct="parameters-signed " + q.unparse(c.func))
     ck.floor("C48.call-sites", total, 6, "signature call sites")
 
 
@@ -463,6 +477,9 @@ def _swap_key_parts(root):
 
 
 MUTANTS = [
+    ("seeded C48-adv1: normalised URL lower-cases the path too", _m("_oauth10a_signature", replace_expr(lambda n: isinstance(n, ast.Name) and n.id == "path" and isinstance(n.ctx, ast.Load), lambda n: parse_expr("path.lower()"))), "C48.url-normalized"),
+    ("request parameters always signed as GET", _m("OAuthMixin._oauth_request_parameters", replace_expr(lambda n: isinstance(n, ast.Name) and n.id == "method" and isinstance(n.ctx, ast.Load), lambda n: ast.Constant(value="GET"), limit=2)), "C48.call-sites"),
+    ("request's own parameters left out of the signed dict", _m("OAuthMixin._oauth_request_parameters", remove_stmts(lambda st: _src(st) == "args.update(parameters)")), "C48.call-sites"),
     ("1.0a: parameter values not escaped", _m("_oauth10a_signature", _unescape_values), "C48.param-values-escaped"),
     ("1.0: parameters not sorted", _m("_oauth_signature", replace_expr(lambda n: isinstance(n, ast.Call) and _src(n.func) == "sorted", lambda n: n.args[0])), "C48.params-sorted"),
     ("1.0a: authority not lower-cased", _m("_oauth10a_signature", replace_expr(lambda n: isinstance(n, ast.Call) and _src(n) == "netloc.lower()", lambda n: ast.Name(id="netloc", ctx=ast.Load()))), "C48.url-normalized"),
